@@ -81,7 +81,8 @@ pub fn render(s: &TypeSpec) -> Option<Rendered> {
     o.push_str("}\n");
     // the expected value, written out from the model
     let expected_expr = match &type_expr {
-        Some(e) => e.clone(),
+        // (a bare literal is converted by the user's From impl, whose result the generator recorded)
+        Some(e) => s.type_expr_expect.clone().unwrap_or_else(|| e.clone()),
         None => {
             let v = &s.variants[des];
             let path = if s.kind == Kind::Enum { format!("{}::{}", s.name, v.name) } else { s.name.clone() };
